@@ -297,6 +297,17 @@ class Check:
             time.sleep(0.05)
         return results
 
+    def crash_verdict(self, module, rc, outp):
+        """A harness process that died of a Go panic / fatal error whose first stack runs through non-test code of the repository
+        under test is a verdict (clause 'crash'), not a broken check. Returns True when it reported one."""
+        if rc == 0:
+            return False
+        txt = repo_crash(outp + ".log")
+        if not txt:
+            return False
+        self.violation({"module": module, "clause": "crash"}, "the process died in proxy code: " + txt[:600], {"kind": "crash", "log": txt[:4000]})
+        return True
+
     # ---------------------------------------------------------------- verdicts
     def violation(self, signature, what, replay_obj=None):
         """Report a property violation observed on the real code. Matches against known findings."""
@@ -346,6 +357,29 @@ class Check:
             return 1
         log("%s %s: held on everything explored (%.1fs)" % (self.pid, self.tier, wall))
         return 0
+
+
+def repo_crash(logpath):
+    """Text of the panic if the process died of a Go panic / fatal error whose FIRST goroutine stack has a frame in the repository
+    under test that is neither a harness file (zz_verif*) nor a test file nor a dependency; else ''."""
+    try:
+        text = open(logpath, errors="replace").read()
+    except OSError:
+        return ""
+    ks = [k for k in (text.find("panic: "), text.find("fatal error: ")) if k >= 0]
+    if not ks:
+        return ""
+    k = min(ks)
+    if "out of memory" in text[k:k + 400] or "test timed out" in text[k:k + 200]:
+        return ""
+    blocks = text[k:].split("\n\n")
+    first = "\n\n".join(blocks[:2])
+    for line in first.split("\n"):
+        line = line.strip()
+        if ".go:" in line and "/pkg/mod/" not in line and "zz_verif" not in line and "_test.go" not in line \
+                and "/src/runtime/" not in line and "/src/testing/" not in line and ("s2s-proxy" in line or REPO in line or "/seedrepo" in line):
+            return text[k:k + 3000]
+    return ""
 
 
 def sig_match(pattern, sig):
